@@ -2,4 +2,4 @@
 From MptV Require Import Base.Mem C05.TypedModel C05.TypedSpec.
 Require Import ExtrOcamlBasic.
 (* N.of_nat only pulls in the types positive and N that the shared ml/conv.inc.ml mentions *)
-Extraction "c05_model.ml" run release_all init_world monitor mon0 N.of_nat.
+Extraction "c05_model.ml" run release_all init_world monitor monitor_nf mon0 N.of_nat.
